@@ -153,10 +153,33 @@ def c03_cases(tier, seed):
             edits = [rng.choice(EDITS) for _ in range(n)]
             cases.append(mk(b, rng.choice(hdr_names), edits, rng.choice(FLAG_SETS[:5]), clean=True))
         cases.append(mk(b, "plain", [rng.choice(EDITS) for _ in range(n)], "create,fix", crlf=True, clean=True))
+    # the other operations: trim / fix / create on `in`, `<=`, `[key]` next to each other on one line
+    ops_files = [
+        ('def test_a():\n    assert 5 in snapshot([1, 5, 7]); assert 3 <= snapshot(10)  # ä😀\n    s = snapshot({"a": 1, "b": 2}); assert s["a"] == 1\n',
+         {"trim": [0, 1, 2], "fix": [], "create": [], "update": [], "create,fix": [], "create,fix,update,trim": [0, 1, 2]}),
+        ('def test_a():\n    x = "ä"; assert 6 in snapshot([1, 5]); assert 30 <= snapshot(10); s = snapshot({"a": 1}); assert s["b"] == 2\n',
+         # trim alone: the first assert fails (6 is missing), the unused 1 and 5 are trimmed, the rest of the test is never reached
+         {"trim": [0], "fix": [0, 1], "create": [2], "update": [], "create,fix": [0, 1, 2], "create,fix,update,trim": [0, 1, 2]}),
+        ('def test_a():\n\tassert 6 in snapshot( [ 0+6 ,1 ] ); assert 3 >= snapshot( 0+1 ) ; assert "ä" in snapshot(["ö" ,"ä"])\n',
+         {"trim": [0, 1, 2], "fix": [], "create": [], "update": [0], "create,fix": [], "create,fix,update,trim": [0, 1, 2]}),
+    ]
+    for body, per_flags in ops_files:
+        for fl, changed in per_flags.items():
+            for h in (hdr_names if tier == "thorough" else hdr_names[:2]):
+                for crlf in (False, True):
+                    for cl in (False, True):
+                        cases.append(dict(prop="C03", name=f"ops/{h}{'/crlf' if crlf else ''}{'/clean' if cl else ''}", src=HDRS[h] + body, flags=fl, changed=changed,
+                                          crlf=crlf, make_clean=cl, mode_opts={}, expect_green=False))
+    # elements written in redundant parentheses next to an insertion / deletion ("odd but valid" old text)
+    for b, e in [("nonascii_left", ("[(1), 2]", "[1]", "fix")), ("tabs", ("[(1)]", "[1, 2]", "fix")), ("odd_spacing", ('{"a": (1), "b": 2}', '{"a": 1}', "fix")),
+                 ("nested_calls", ("[2, (1)]", "[1]", "fix")), ("in_loop", ("((1), 2)", "(1, 2, 3)", "fix"))]:
+        c = mk(b, "plain", [e], "fix", tag="/paren")
+        c["expect_green"] = True
+        cases.append(c)
     if tier == "thorough":
         for b in BODIES:
             n = N_SLOTS[b]
-            for _ in range(60):
+            for _ in range(250):
                 edits = [rng.choice(EDITS) for _ in range(n)]
                 cases.append(mk(b, rng.choice(hdr_names), edits, rng.choice(FLAG_SETS), crlf=rng.random() < 0.15, clean=rng.random() < 0.3))
     return cases
@@ -315,9 +338,15 @@ def c10_cases(tier, seed):
                         for fl in fls:
                             old = wrap(container, utext, so, pos)
                             new = new_value(container, uval_ok if correct else uval_bad, sn, pos)
-                            # same length, so the element holding the unmanaged text can only be kept or replaced as a whole
+                            # Survival is decidable when the holder is necessarily paired with its counterpart: the unmanaged value is
+                            # correct (it matches), or entries are matched by key (dict / keyword arguments), or every sibling is equal
+                            # (the alignment strips them as common prefix/suffix and the 1:1 rest becomes a replacement).
+                            # A wrong unmanaged value among other wrong sequence elements may legitimately be deleted with its element.
+                            forced = correct or container in ("dict", "dc") or so == sn
                             add(f"{kname}/{container}/pos{pos}/{'ok' if correct else 'bad'}", setup, old, new, [utext], ["dyn_a"], correct, fl,
-                                survive=True if correct else None)
+                                survive=True if forced else None)
+                            if container == "dict" and not correct:
+                                cases[-1]["sib_keys"] = [f"k{i}" for i in range(len(so) + 1) if i != pos]
     # --- length changes around an unmanaged element
     for kname, setup, utext, uval_ok, uval_bad in kinds[:1] + kinds[3:4]:
         for old_sibs, new_sibs, upos_old, upos_new in [
@@ -496,12 +525,6 @@ def value_expr(v):
     return repr(v)
 
 
-def same(a, b):
-    """model equality that follows Python's == for the generated data, except that it separates 1 / True / 1.0 never
-    (they are equal for inline-snapshot as well, so the harness keeps them equal)"""
-    return a == b
-
-
 def spec_to_plain(s):
     """picklable form of a Spec"""
     return dict(kind=s.kind, text=s.text, kids=[spec_to_plain(k) for k in s.kids], keys=[[repr(kv), kt] for kv, kt in s.keys], name=s.name,
@@ -511,7 +534,7 @@ def spec_to_plain(s):
 def c11_cases(tier, seed):
     rng = random.Random(seed * 9973 + 11)
     cases = []
-    n = 450 if tier == "quick" else 8000
+    n = 450 if tier == "quick" else 40000
     hdr = C10_HDR.replace(", Is", "")
     for i in range(n):
         old = rand_container(rng, 2 if rng.random() < 0.5 else 1)
@@ -599,7 +622,15 @@ def ast_oracle(before, after, changed):
     sa = [(a, b) for i, (a, b, _) in enumerate(calls_a) if i in changed]
     cb, ca = comments_outside(before, sb), comments_outside(after, sa)
     if cb is not None and ca is not None and cb != ca:
-        return False, f"comments outside the changed arguments differ: {cb} -> {ca}"
+        # black may merge comments that stood inside the parentheses into a comment outside (`# lead  # after`);
+        # what must hold: no comment that stood outside is lost, and their order is kept
+        joined = "\n".join(comments_outside(after, []) or [])
+        pos = 0
+        for c in cb:
+            k = joined.find(c, pos)
+            if k < 0:
+                return False, f"a comment outside the changed arguments was lost or reordered: {c!r}; before {cb} -> after {ca}"
+            pos = k + len(c)
     return True, ""
 
 
@@ -748,6 +779,8 @@ def _eval_in_cwd(case, cwd):
     from inline_snapshot._format import file_mode_for_path
 
     pipeline_mode = file_mode_for_path(Path(cwd) / MAIN)
+    if pipeline_mode != mode and not case.get("toml"):
+        return dict(status="skip", why="environment: a pyproject.toml with [tool.black] is visible from the temp directory")
     if pipeline_mode != mode:
         return _fail(case, None, f"black mode taken from pyproject.toml differs from the configured one: {pipeline_mode} != {mode}", src)
 
@@ -762,7 +795,10 @@ def _eval_in_cwd(case, cwd):
     try:
         compile(after_lf, MAIN, "exec")
     except SyntaxError as ex:
-        return _fail(case, None, f"rewritten file is not valid Python: {ex}", src, after)
+        label = "other"
+        if case["name"].endswith("/paren") or re.search(r"[\[,(:]\s*\(\d+\)", src):
+            label = "new:paren-element (element written in redundant parentheses next to an insertion/deletion)"
+        return _fail(case, None, f"[{label}] rewritten file is not valid Python: {ex}", src, after, label=label)
 
     changed = case.get("changed")
     if changed is None:
@@ -827,6 +863,19 @@ def _eval_in_cwd(case, cwd):
                              + "; ".join(f"{w}: {t}: {m}" for w, t, m, _ in rr["errors"]), src, after)
         elif not case["u_correct"]:
             info["note"] = "unmanaged part wrong by construction: only the text rule is checked"
+            if case.get("sib_keys") is not None and "fix" in fl:
+                # managed siblings of a wrong unmanaged dict value are still fixed (entries are matched by key)
+                rr = D.rerun_identity(after)
+                ns = rr["ns"] or {}
+                try:
+                    got = eval(arg_a, ns)
+                    want = eval(case["new"], ns)
+                except Exception as ex:
+                    return _fail(case, None, f"cannot evaluate the rewritten argument: {type(ex).__name__}: {ex}", src, after)
+                bad = [k for k in case["sib_keys"] if not (k in got and got[k] == want[k])]
+                if bad:
+                    return _fail(case, None, f"managed siblings {bad} of an unmanaged (wrong) value were not fixed", src, after)
+                info["note"] = "unmanaged part wrong by construction: text rule + managed dict siblings fixed"
 
     # ---- C11
     if prop == "C11":
@@ -930,17 +979,18 @@ def _describe(case):
                "formatter-clean and not clean (C03); 9 pyproject [tool.black] variants x 5 shapes x values around the line limit (C20); "
                "Is()/f-string/star-expression/nested-snapshot name inside list/tuple/dict/call at every position (C10); "
                "containers of hand-written element expressions, depth<=2, width<=4, random edit scripts + all sequence pairs over 3 symbols up to length 3 (C11)")
-def run(tier, seed):
+def run(tier, seed, pid=None):
     t0 = time.time()
     budget = 33.0 if tier == "quick" else 800.0
     deadline = t0 + budget
     res = dict(evaluated=0, distinct=0, failures=[], samples=[], cross_checks=[], skipped=0, notes=[])
     try:
-        only = os.environ.get("BOUNDED_ONLY_PROPS")
         gens = dict(C03=c03_cases, C20=c20_cases, C10=c10_cases, C11=c11_cases)
+        props = D.requested_props(list(gens), pid)
+        res["props_run"] = props
         cases = []
         for p, g in gens.items():
-            if not only or p in only:
+            if p in props:
                 cases += g(tier, seed)
         random.Random(seed).shuffle(cases)
         results, not_run = D.pool_run(eval_case, cases, 6, deadline)
@@ -1009,9 +1059,15 @@ def run(tier, seed):
 
 
 def _add_failure(res, per_finding, finding, inp, detail, replay, label="other"):
-    """caps: 5 per finding id, 20 for finding=None"""
+    """caps: 5 per finding id, 20 for finding=None (at most 5 per triage label so that one defect cannot hide another)"""
     n = per_finding.get(finding, 0)
     per_finding[finding] = n + 1
-    cap = 5 if finding is not None else 20
-    if n < cap:
-        res["failures"].append(dict(finding=finding, label=label, input=inp, detail=detail, replay_code=replay))
+    if finding is not None:
+        keep = n < 5
+    else:
+        lab = res.setdefault("none_labels", {})
+        lab[label] = lab.get(label, 0) + 1
+        kept = sum(1 for f in res["failures"] if f["finding"] is None)
+        keep = kept < 20 and lab[label] <= 5
+    if keep:
+        res["failures"].append(dict(finding=finding, prop=inp.get("prop"), label=label, input=inp, detail=detail, replay_code=replay))
